@@ -113,6 +113,12 @@ def def_value(n: Node, name: str):
             for te, ve in zip(t.elts, a.value.elts):
                 if isinstance(te, ast.Name) and te.id == name:
                     return ve
+        if isinstance(t, ast.Tuple) and not isinstance(a.value, ast.Tuple) and all(isinstance(te, ast.Name) for te in t.elts):
+            # a, b, c = f(...)   ->   b is f(...)[1]
+            for i, te in enumerate(t.elts):
+                if te.id == name:
+                    return ast.fix_missing_locations(ast.copy_location(
+                        ast.Subscript(value=a.value, slice=ast.Constant(value=i), ctx=ast.Load()), a.value))
     if isinstance(a, ast.AnnAssign) and isinstance(a.target, ast.Name) and a.target.id == name:
         return a.value
     return None
@@ -621,3 +627,236 @@ def mode_dispatch(ctx: Ctx, rule: str, sites, module="optimism.Mechanics", marke
                                                                           f"{b.split(':')[-1]} has { {k: v.name for k, v in tb.items()} }")
     if len(tables) < len(list(sites)):
         raise Incomplete(f"mode dispatch tables found for {len(tables)} of {len(list(sites))} sites")
+
+
+# ----------------------------------------------------------------- semantic normal form of expressions (helper-insensitive)
+
+REPO = None          # set by optilint.main.run_rules
+
+
+def _simple_body(fn_node):
+    """(assignments, return expression) if the function is straight-line: docstring?, simple assignments, one final return."""
+    if isinstance(fn_node, ast.Lambda):
+        return [], fn_node.body
+    body = [st for st in fn_node.body if not (isinstance(st, ast.Expr) and isinstance(st.value, ast.Constant))]
+    if not body or not isinstance(body[-1], ast.Return) or body[-1].value is None or len(body) > 14:
+        return None
+    for st in body[:-1]:
+        if not (isinstance(st, ast.Assign) and len(st.targets) == 1 and isinstance(st.targets[0], (ast.Name, ast.Tuple))):
+            return None
+    return body[:-1], body[-1].value
+
+
+def _callee_scope(func_expr, scope):
+    if REPO is None:
+        return None
+    try:
+        vals = REPO.resolve(func_expr, scope)
+    except Exception:
+        return None
+    fs = [v.scope for v in vals if isinstance(v, FuncVal)]
+    if len(fs) != 1 or len(vals) != 1:
+        return None
+    return fs[0]
+
+
+def _bind_args(call, callee):
+    """param -> actual expr (positional, keyword, defaults); None if it cannot be bound statically."""
+    ps = callee.params()
+    if any(isinstance(a, ast.Starred) for a in call.args) or any(k.arg is None for k in call.keywords) or len(call.args) > len(ps):
+        return None
+    m = {}
+    for p_, a in zip(ps, call.args):
+        m[p_] = a
+    for k in call.keywords:
+        if k.arg not in ps + callee.kwonly() or k.arg in m:
+            return None
+        m[k.arg] = k.value
+    for p_ in ps + callee.kwonly():
+        if p_ not in m:
+            d = callee.default_of(p_)
+            if d is None:
+                return None
+            m[p_] = d
+    return m
+
+
+def inline_value(callee, depth=3):
+    """Fully expanded return expression of a straight-line function in terms of its parameters (and free names), or None."""
+    key = "_inline_value"
+    if hasattr(callee, key):
+        return getattr(callee, key)
+    setattr(callee, key, None)       # recursion guard
+    sb = _simple_body(callee.node)
+    out = None
+    if sb is not None:
+        try:
+            c = cfg_of(callee)
+            rets = c.returns()
+            if isinstance(callee.node, ast.Lambda):
+                out = callee.node.body
+            elif len(rets) == 1:
+                out = expand(c, rets[0], rets[0].ast.value, depth=8)
+                # tuple-unpacked locals cannot be expanded: give up when locals of the callee remain
+                loc = {n.id for n in ast.walk(callee.node) if isinstance(n, ast.Name) and isinstance(n.ctx, ast.Store)}
+                if any(isinstance(n, ast.Name) and n.id in loc and not n.id.endswith("__in") for n in ast.walk(out)):
+                    out = None
+        except Exception:
+            out = None
+    if out is not None and depth > 0:
+        out = normalize(out, callee, depth - 1)
+    if out is not None and sum(1 for _ in ast.walk(out)) > 400:
+        out = None
+    setattr(callee, key, out)
+    return out
+
+
+class _Inliner(ast.NodeTransformer):
+    def __init__(self, scope, depth):
+        self.scope, self.depth = scope, depth
+
+    def visit_Call(self, n):
+        n = self.generic_visit(n)
+        callee = _callee_scope(n.func, self.scope)
+        if callee is None or callee.kind not in ("function", "lambda") or callee.cls is not None:
+            return self._kw_to_pos(n, None)
+        m = _bind_args(n, callee)
+        val = inline_value(callee, self.depth) if m is not None else None
+        if val is None:
+            return self._kw_to_pos(n, callee if m is not None else None, m)
+        import copy
+        # free names of the callee that are shadowed differently at the call site are not handled: require module-level or parameter names
+        return ast.fix_missing_locations(_Subst(m).visit(copy.deepcopy(val)))
+
+    def _kw_to_pos(self, n, callee, m=None):
+        if callee is not None and m is not None and n.keywords:
+            ps = callee.params()
+            # positional form up to the last explicitly given parameter
+            given = [p_ for p_ in ps if any(m[p_] is a for a in n.args) or any(m[p_] is k.value for k in n.keywords)]
+            if given:
+                last = max(ps.index(p_) for p_ in given)
+                return ast.copy_location(ast.Call(func=n.func, args=[m[p_] for p_ in ps[:last + 1]], keywords=[]), n)
+        # jax.vmap(f, in_axes=...) == jax.vmap(f, ...)
+        if (dotted(n.func) or "").split(".")[-1] == "vmap" and len(n.args) == 1:
+            ax = [k for k in n.keywords if k.arg == "in_axes"]
+            if len(ax) == 1 and len(n.keywords) == 1:
+                return ast.copy_location(ast.Call(func=n.func, args=[n.args[0], ax[0].value], keywords=[]), n)
+        return n
+
+    def visit_Name(self, n):
+        # a nested straight-line def used as a value is the lambda it abbreviates
+        if isinstance(n.ctx, ast.Load) and REPO is not None:
+            callee = None
+            for c in self.scope.children:
+                if c.kind == "function" and c.name == n.id:
+                    callee = c
+            if callee is not None:
+                val = inline_value(callee, self.depth)
+                if val is not None:
+                    import copy
+                    return ast.fix_missing_locations(ast.Lambda(args=copy.deepcopy(callee.node.args), body=copy.deepcopy(val)))
+        return n
+
+
+def normalize(expr, scope, depth=3):
+    """Inline calls of straight-line repository functions (recursively), put keyword arguments of resolved callees in positional
+    form, replace nested straight-line defs used as values by lambdas.  Comparing normal forms makes a rule insensitive to
+    extracting / inlining small helpers, keyword-vs-positional call style and def-vs-lambda."""
+    import copy
+    if isinstance(expr, str):
+        expr = ast.parse(expr, mode="eval").body
+    if REPO is None or scope is None:
+        return expr
+    out = _Inliner(scope, depth).visit(copy.deepcopy(expr))
+
+    class _TupleIndex(ast.NodeTransformer):
+        def visit_Subscript(self, n):
+            n = self.generic_visit(n)
+            if isinstance(n.value, ast.Tuple) and isinstance(n.slice, ast.Constant) and isinstance(n.slice.value, int) \
+                    and -len(n.value.elts) <= n.slice.value < len(n.value.elts):
+                return n.value.elts[n.slice.value]
+            return n
+    return ast.fix_missing_locations(_TupleIndex().visit(out))
+
+
+def _canon_lambda_params(e):
+    """rename lambda parameters positionally so that `lambda a: f(a)` and `lambda b: f(b)` coincide"""
+    import copy
+
+    class R(ast.NodeTransformer):
+        def __init__(self):
+            self.k = 0
+
+        def visit_Lambda(self, n):
+            names = [a.arg for a in n.args.args]
+            self.k += 1
+            m = {nm: ast.Name(id=f"_l{self.k}_{i}", ctx=ast.Load()) for i, nm in enumerate(names)}
+            body = _Subst(m).visit(n.body)
+            body = self.visit(body)
+            args = copy.deepcopy(n.args)
+            for i, a in enumerate(args.args):
+                a.arg = f"_l{self.k}_{i}"
+            return ast.Lambda(args=args, body=body)
+    return ast.fix_missing_locations(R().visit(copy.deepcopy(e)))
+
+
+def sem_same(actual, template, scope) -> bool:
+    """`actual` (already expanded to the scope's parameters where the rule wants that) and `template` agree after normalisation."""
+    a = _canon_lambda_params(normalize(actual, scope))
+    t = _canon_lambda_params(normalize(template, scope))
+    return canon(a) == canon(t)
+
+
+def defs_to_lambdas(expr, scope):
+    """Names of nested straight-line defs of `scope` used as values -> the lambdas they abbreviate (free variables untouched)."""
+    import copy
+
+    class D(ast.NodeTransformer):
+        def visit_Name(self, n):
+            if isinstance(n.ctx, ast.Load):
+                for c in scope.children:
+                    if c.kind == "function" and c.name == n.id:
+                        val = inline_value(c, 0)
+                        if val is not None:
+                            return ast.fix_missing_locations(ast.Lambda(args=copy.deepcopy(c.node.args), body=copy.deepcopy(val)))
+            return n
+    return D().visit(copy.deepcopy(expr))
+
+
+def normal_form(scope, node, expr, stop=()):
+    """expr as seen at CFG node `node` of `scope`, expanded to the parameters of the scope, nested defs as lambdas, small helpers inlined."""
+    cfg = cfg_of(scope)
+    e = defs_to_lambdas(expr, scope)
+    e = expand(cfg, node, e, stop=stop)
+    return normalize(e, scope)
+
+
+def return_normal_form(scope, stop=()):
+    cfg = cfg_of(scope)
+    r = cfg.returns()
+    if len(r) != 1:
+        return None
+    return normal_form(scope, r[0], r[0].ast.value, stop)
+
+
+def unwrap_call(call, scope, stop_names=(), max_steps=3):
+    """Follow trivial wrappers: while `call` invokes a straight-line repository function (not in stop_names) whose value is
+    itself a call, replace it by that inner call with the arguments substituted.  Returns the innermost call reached."""
+    import copy
+    cur = call
+    cur_scope = scope
+    for _ in range(max_steps):
+        if not isinstance(cur, ast.Call):
+            break
+        if (dotted(cur.func) or "").split(".")[-1] in stop_names:
+            break
+        callee = _callee_scope(cur.func, cur_scope)
+        if callee is None or callee.kind != "function" or callee.cls is not None:
+            break
+        m = _bind_args(cur, callee)
+        val = inline_value(callee, 0) if m is not None else None
+        if not isinstance(val, ast.Call):
+            break
+        cur = ast.fix_missing_locations(_Subst(m).visit(copy.deepcopy(val)))
+        cur = _Inliner(callee, 0)._kw_to_pos(cur, _callee_scope(cur.func, callee), _bind_args(cur, _callee_scope(cur.func, callee)) if _callee_scope(cur.func, callee) else None)
+    return cur
